@@ -45,7 +45,7 @@ def run(tier):
     pipe.warm()
     out = common.Outcome("C02", tier)
     # ---------------- (a) semantic corpus units -------------------------------------------------------------------
-    units = sem.corpus(tier)
+    units = [u for u in sem.corpus(tier) if u.tags[:1] != ("seq",)]  # the statement-sequence units are built by C01
     chk = c01.check_units(units)
     accepted = [u for u, c in zip(units, chk) if c["check"]["status"] == "ok"]
     normal = [u for u in accepted if not u.panics]
